@@ -9,6 +9,7 @@ correspondence run (monitors `not_delivered_after_recovery`, `request_flood`,
 `stuck_temporary_unreachable`).
 -/
 import TeosVerif.Props.C05
+import TeosVerif.Gen.PluginCalls
 import TeosVerif.Lemmas.Tidy
 
 namespace Teos.C13
@@ -564,5 +565,24 @@ theorem pending_listing_is_the_store (evs : List Ev) (t : TowerId) (sm : Summary
   have ht := tidy_runEv evs {} TidyS.init
   obtain ⟨_, _, _, _, _, _, _, _, a7, _, _⟩ := ht.inv.sync_some t sm hs
   rw [a7]; exact mem_locsOf _ _ _
+
+/-- **status_transitions_are_the_modelled_ones** (tie to the source, regenerated on every run): in the
+non-test source of the client a tower's status is written only at these places, with these values — the
+failed commands (`register`, `get_subscription_info`, `get_appointment`: temporary unreachable), the
+notification handler (temporary unreachable / subscription error, as `hookTower`), `Retrier::start`
+(temporary unreachable when it begins, then reachable / subscription error / unreachable as `retryRun`) and
+`Retrier::run` (subscription error, as `sendAll`) —, and `is_retryable` is "unreachable or subscription
+error", as `TStatus.isRetryable`. -/
+theorem status_transitions_are_the_modelled_ones :
+    Gen.PluginCalls.setStatus =
+      [("main", "register", "TemporaryUnreachable"), ("main", "get_subscription_info", "TemporaryUnreachable"),
+       ("main", "get_appointment", "TemporaryUnreachable"), ("main", "on_commitment_revocation", "TemporaryUnreachable"),
+       ("main", "on_commitment_revocation", "SubscriptionError"), ("retrier", "start", "TemporaryUnreachable"),
+       ("retrier", "start", "Reachable"), ("retrier", "start", "SubscriptionError"), ("retrier", "start", "Unreachable"),
+       ("retrier", "run", "SubscriptionError")] ∧
+    Gen.PluginCalls.retryable = ["unreachable", "subscription_error"] ∧
+    (∀ st : TStatus, st.isRetryable = true ↔ (st = .unreachable ∨ st = .subscriptionError)) := by
+  refine ⟨by decide, by decide, ?_⟩
+  intro st; cases st <;> simp [TStatus.isRetryable]
 
 end Teos.C13
